@@ -73,7 +73,7 @@ end DE
 /-! non-vacuity: a closed-loop run over `Int` energies that is stopped by its generation limit -/
 
 /-- toy algorithm: the state is a counter, each iteration logs 2 evaluations, the condition never holds -/
-def toyAlg : Alg Nat := { step := fun s _ => s + 1, nlog := fun s => 2 * s, term := fun _ _ => false }
+def toyAlg : Alg Nat := { step := fun s _ => s + 1, nlog := fun s => 2 * s, nrec := fun s => s, term := fun _ _ => false }
 
 example : (solve toyAlg 10 { maxiter := .val 3, maxfun := .val 100 } 0 0 0).iters = 4 ∧
     (solve toyAlg 10 { maxiter := .val 3, maxfun := .val 100 } 0 0 0).steps = 4 ∧
